@@ -59,7 +59,7 @@ def gen_sweep(seed, tier):
                        "look": gen.gen_angle_deg(rng, look), "relative": gen.gen_angle_deg(rng, gen.pick(rng, [0.0, 0.0, 0.3])),
                        "cant": gen.gen_angle_deg(rng, gen.pick(rng, [0.0, 0.0, 0.0, round(rng.uniform(-15, 15), 1)]))})
     cfg = {"max_calc_step_size_feet": gen.pick(rng, [1.0, 2.0, 4.0, 8.0]),
-           "cZeroFindingAccuracy": gen.pick(rng, [5e-6, 5e-6, 1e-4, 1e-3, 1e-7])}
+           "cZeroFindingAccuracy": gen.pick(rng, [5e-6, 5e-6, 1e-4, 1e-3, 1e-7, 1e-7, 0.0])}   # 0: can never be met
     if rng.random() < 0.15:
         cfg["cGravityConstant"] = -round(rng.uniform(20, 40), 3)
     dist = gen.gen_distance_ft(rng, round(rng.uniform(25, 700) * 3, 1), ("Yard", "Meter", "Foot"))
@@ -132,6 +132,24 @@ def _sweep(case, only=None):
         return {"violations": viol, "stats": stats, "digest": sha(["budget"]), "ref_kind": "budget"}
     h = [ref["kind"], ref.get("value")]
     acc = base.get("cZeroFindingAccuracy", 5e-6)
+    if ref["kind"] == "ok" and all(float(getattr(shot, a).raw_value) == 0.0 for a in ("look_angle", "cant_angle", "relative_angle")):
+        # A returned angle met the accuracy by the finder's own last measurement, so asking again from exactly that angle
+        # (level, un-canted: the start elevation is the stored zero, bit for bit) with one iteration allowed measures the
+        # same error and hands the angle back unchanged.  An angle that was returned without having been tested does not.
+        stats["retest_runs"] = stats.get("retest_runs", 0) + 1
+        _budget["n"] = 0
+        try:
+            again = pb.Calculator(_config=dict(base, cMaxIterations=1)).barrel_elevation_for_target(shot, b.q(case["dist"]))
+            again = "ok:" + float(again.raw_value).hex()
+        except _ZeroBudget:
+            again = "budget"
+        except Exception as e:  # noqa
+            again = type(e).__name__
+        h.append(["retest", again])
+        if again != "ok:" + ref["value"]:
+            bad("accuracy.returned_angle_fails_own_test", "reference",
+                f"zeroing (accuracy {acc}) returned {ref['value']}, but started again from exactly that angle with one "
+                f"iteration allowed it gives {again}: the returned angle had not met the accuracy", ["ref"])
     if ref["kind"] == "ok" and ref["post"] != ref["value"]:
         bad("zero.stored_differs_from_returned", "reference", f"returned {ref['value']} stored {ref['post']}", ["ref"])
     if ref["kind"] != "ok" and ref["post"] != ref["pre"]:
